@@ -496,13 +496,6 @@ def run_unit(prop, unit, tier, seed, log):
     if rc != 0 and not errs and nerr == 0:
         log(out[-6000:])
         raise Undecided(f"verus failed without verification diagnostics on {unit['unit']}")
-    # vacuity canary: a deliberately false lemma in the unit must be rejected
-    if unit.get('canary'):
-        c_rc, c_out, _, c_js, _ = run_verus(_canary_file(path, text, unit['canary']))
-        ok = c_js and c_js.get('verification-results', {}).get('errors', 0) >= 1
-        m['vacuity_canary'] = 'rejected' if ok else 'ACCEPTED'
-        if not ok:
-            raise Undecided(f"vacuity guard: the false canary lemma of {unit['unit']} was not rejected")
     # ---- obligations --------------------------------------------------------------------------
     ids = meta['idlines']           # line -> id
     fnl = meta['fnlines']
@@ -560,6 +553,14 @@ def run_unit(prop, unit, tier, seed, log):
     if other:
         results.append(dict(base, id=f"{prop}.{unit['unit']}.lemmas", cls='support', status='failed',
                             detail='; '.join(other)))
+    # (only meaningful for a run without errors: it guards against a vacuous *pass*)
+    # vacuity canary: a deliberately false lemma in the unit must be rejected
+    if unit.get('canary') and not errs and nerr == 0:
+        c_rc, c_out, _, c_js, _ = run_verus(_canary_file(path, text, unit['canary']))
+        ok = c_js and c_js.get('verification-results', {}).get('errors', 0) >= 1
+        m['vacuity_canary'] = 'rejected' if ok else 'ACCEPTED'
+        if not ok:
+            raise Undecided(f"vacuity guard: the false canary lemma of {unit['unit']} was not rejected")
     m['errors_text'] = ['\n'.join(e['raw'][:25]) for e in errs][:10]
     m['path'] = path
     m['obligation_lines'] = len(ids)
